@@ -125,7 +125,7 @@ element `TimeoutError('Shutdown requested, cannot get next batch.')` -/
 def serverNextReplyOnShutdown (B V : Type) : List (Elem B V) := [.timeoutExc]
 
 /-- a state of the coroutine that neither has failed non-retriably nor waits for a non-retriable answer -/
-def CoSt.clean : CoSt → Bool
+def CoSt.noAppErr : CoSt → Bool
   | .raisedErr => false
   | .awaitInit .appError => false
   | .awaitNext .appError _ => false
